@@ -3,7 +3,9 @@
 A case carries the bytes of a PDF file written here plus the abstract view of it that the model works on (what
 every loading task reads: `entries`).  The harness loads the bytes under every merge order (hook H1), under real
 rayon pools and with the sequential build; the model computes the document for every order from the entries."""
+import hashlib
 import os
+import struct
 import propcheck
 import vlib
 from sxg import *
@@ -56,6 +58,164 @@ def sx(o):
     if t == 'ref':
         return REF(o[1], o[2])
     raise ValueError(o)
+
+
+
+
+# ------------------------------------------------------------------------------------------
+# standard security handler (ISO 32000-1 7.6.3): revision 3 (RC4, 128 bit) and revision 4 (AESV2), pure python;
+# checked against the crate: files encrypted here are opened by Document::load_mem with the expected plaintext
+# ------------------------------------------------------------------------------------------
+PAD = bytes.fromhex('28BF4E5E4E758A4164004E56FFFA01082E2E00B6D0683E802F0CA9FE6453697A')
+
+
+def md5(b):
+    return hashlib.md5(b).digest()
+
+
+def rc4(key, data):
+    s = list(range(256))
+    j = 0
+    n = len(key)
+    for i in range(256):
+        j = (j + s[i] + key[i % n]) & 255
+        s[i], s[j] = s[j], s[i]
+    out = bytearray(len(data))
+    i = j = 0
+    for k, c in enumerate(data):
+        i = (i + 1) & 255
+        j = (j + s[i]) & 255
+        s[i], s[j] = s[j], s[i]
+        out[k] = c ^ s[(s[i] + s[j]) & 255]
+    return bytes(out)
+
+
+# ---- AES-128 encryption (FIPS 197), table driven ----
+def _tables():
+    sbox = [0] * 256
+    p = q = 1
+    while True:
+        p = p ^ ((p << 1) & 255) ^ (0x1b if p & 0x80 else 0)
+        q ^= q << 1
+        q ^= q << 2
+        q ^= q << 4
+        q &= 255
+        if q & 0x80:
+            q ^= 0x09
+        x = q ^ (q << 1 | q >> 7) & 255 ^ (q << 2 | q >> 6) & 255 ^ (q << 3 | q >> 5) & 255 ^ (q << 4 | q >> 4) & 255
+        sbox[p] = (x ^ 0x63) & 255
+        if p == 1:
+            break
+    sbox[0] = 0x63
+    return sbox
+
+
+SBOX = _tables()
+XT = [((x << 1) ^ (0x1b if x & 0x80 else 0)) & 255 for x in range(256)]
+M2 = [XT[SBOX[x]] for x in range(256)]
+M3 = [XT[SBOX[x]] ^ SBOX[x] for x in range(256)]
+
+
+def aes128_key_schedule(key):
+    w = [list(key[4 * i:4 * i + 4]) for i in range(4)]
+    rcon = 1
+    for i in range(4, 44):
+        t = list(w[i - 1])
+        if i % 4 == 0:
+            t = [SBOX[t[1]] ^ rcon, SBOX[t[2]], SBOX[t[3]], SBOX[t[0]]]
+            rcon = XT[rcon]
+        w.append([a ^ b for a, b in zip(w[i - 4], t)])
+    return [sum(w[4 * r:4 * r + 4], []) for r in range(11)]
+
+
+def aes128_encrypt_block(rk, block):
+    s = [b ^ k for b, k in zip(block, rk[0])]
+    for r in range(1, 11):
+        # SubBytes + ShiftRows: column c, row i comes from column (c + i) % 4
+        t = [s[4 * ((c + i) & 3) + i] for c in range(4) for i in range(4)]
+        if r < 10:
+            u = []
+            for c in range(4):
+                a0, a1, a2, a3 = t[4 * c:4 * c + 4]
+                u += [M2[a0] ^ M3[a1] ^ SBOX[a2] ^ SBOX[a3],
+                      SBOX[a0] ^ M2[a1] ^ M3[a2] ^ SBOX[a3],
+                      SBOX[a0] ^ SBOX[a1] ^ M2[a2] ^ M3[a3],
+                      M3[a0] ^ SBOX[a1] ^ SBOX[a2] ^ M2[a3]]
+        else:
+            u = [SBOX[x] for x in t]
+        k = rk[r]
+        s = [a ^ b for a, b in zip(u, k)]
+    return bytes(s)
+
+
+def aes128_cbc_encrypt(key, iv, data):
+    """IV || CBC(PKCS#5 padded data)"""
+    rk = aes128_key_schedule(key)
+    n = 16 - len(data) % 16
+    data = data + bytes([n]) * n
+    out = bytearray(iv)
+    prev = iv
+    for i in range(0, len(data), 16):
+        prev = aes128_encrypt_block(rk, bytes(a ^ b for a, b in zip(data[i:i + 16], prev)))
+        out += prev
+    return bytes(out)
+
+
+assert aes128_encrypt_block(aes128_key_schedule(bytes(range(16))), bytes.fromhex('00112233445566778899aabbccddeeff')).hex() == \
+    '69c4e0d86a7b0430d8cdb78070b4c55a'
+assert rc4(b'Key', b'Plaintext').hex().upper() == 'BBF316E8D940AF0AD3'
+
+
+def pad_pw(pw):
+    return (pw + PAD)[:32]
+
+
+class Handler:
+    """kind: 'rc4' = V 2 R 3 Length 128; 'aes' = V 4 R 4 AESV2.  user password given, owner password b'owner'."""
+    def __init__(self, kind, user, id0, perms=-4, owner=b'owner'):
+        self.kind = kind
+        self.R = 3 if kind == 'rc4' else 4
+        n = 16
+        h = md5(pad_pw(owner))
+        for _ in range(50):
+            h = md5(h)
+        okey = h[:n]
+        x = rc4(okey, pad_pw(user))
+        for i in range(1, 20):
+            x = rc4(bytes(k ^ i for k in okey), x)
+        self.O = x
+        self.P = perms
+        h = md5(pad_pw(user) + self.O + struct.pack('<I', perms & 0xffffffff) + id0)
+        for _ in range(50):
+            h = md5(h[:n])
+        self.key = h[:n]
+        h = md5(PAD + id0)
+        x = rc4(self.key, h)
+        for i in range(1, 20):
+            x = rc4(bytes(k ^ i for k in self.key), x)
+        self.U = x + b'\x00' * 16
+
+    def obj_key(self, num, gen):
+        salt = b'sAlT' if self.kind == 'aes' else b''
+        return md5(self.key + num.to_bytes(4, 'little')[:3] + gen.to_bytes(2, 'little') + salt)[:16]
+
+    def encrypt(self, num, gen, data, iv=None):
+        k = self.obj_key(num, gen)
+        if self.kind == 'rc4':
+            return rc4(k, data)
+        return aes128_cbc_encrypt(k, iv, data)
+
+    def dict_entries(self):
+        """entries of the encryption dictionary, as (key, python object) pairs of props/c08.py's object language"""
+        e = [(b'Filter', ('n', b'Standard'))]
+        if self.kind == 'rc4':
+            e += [(b'V', ('i', 2)), (b'R', ('i', 3)), (b'Length', ('i', 128))]
+        else:
+            e += [(b'V', ('i', 4)), (b'R', ('i', 4)), (b'Length', ('i', 128)),
+                  (b'CF', ('d', [(b'StdCF', ('d', [(b'CFM', ('n', b'AESV2')), (b'AuthEvent', ('n', b'DocOpen')), (b'Length', ('i', 16))]))])),
+                  (b'StmF', ('n', b'StdCF')), (b'StrF', ('n', b'StdCF'))]
+        e += [(b'O', ('h', self.O)), (b'U', ('h', self.U)), (b'P', ('i', self.P))]
+        return e
 
 
 WORDS = [b'A', b'B', b'Kind', b'Val', b'Font', b'Page', b'X1', b'Next']
@@ -120,10 +280,46 @@ def objstm_data(index):
     return head + body, len(head)
 
 
-def layout(rng, phys, xref, root, mark=True, compressed=None):
+def crypt_strings(o, f):
+    """the object with every string written in hexadecimal form, its bytes replaced by f(bytes)"""
+    t = o[0]
+    if t in ('s', 'h'):
+        return ('h', f(o[1]))
+    if t == 'a':
+        return ('a', [crypt_strings(x, f) for x in o[1]])
+    if t == 'd':
+        return ('d', [(k, crypt_strings(v, f)) for k, v in o[1]])
+    return o
+
+
+class Enc:
+    """how a file is encrypted: handler, whether the empty password opens it, the object number of the encryption dictionary
+    (None: a direct object of the trailer), the Phys whose AES ciphertext is cut to a length that is no multiple of 16"""
+    def __init__(self, rng, kind, opens=True, dict_num=None, damaged=()):
+        self.id0 = bytes(rng.randrange(256) for _ in range(16))
+        self.h = Handler(kind, b'' if opens else b'secret', self.id0, perms=rng.choice([-4, -44, -3904]))
+        self.kind = kind
+        self.opens = opens
+        self.dict_num = dict_num
+        self.damaged = damaged
+        self.rng = rng
+        self.dec = []        # case text: ((ID GEN) ENCRYPTED PLAIN|err)
+        self.osm = []        # case text: (xCONTENT MEMBERS)
+
+    def data(self, p, b):
+        iv = bytes(self.rng.randrange(256) for _ in range(16))
+        return self.h.encrypt(p.num, p.gen, b, iv)
+
+    def obj(self, p, o):
+        """(encrypted object, what decrypt_object makes of it)"""
+        return crypt_strings(o, lambda b: self.data(p, b)), crypt_strings(o, lambda b: b)
+
+
+def layout(rng, phys, xref, root, mark=True, compressed=None, enc=None):
     """phys: list of Phys in physical order; xref: dict key -> Phys | 'raw' (an offset into garbage).
     compressed: None = classic xref table; dict number -> container key = cross-reference stream with those
-    Compressed entries.  Returns (file bytes, case text)."""
+    Compressed entries.  enc: None or an Enc: strings and stream bodies are written encrypted (strings in hexadecimal form), the
+    trailer gets Encrypt and ID, the case its (crypt ..) part.  Returns (file bytes, case text)."""
     out = bytearray(b'%PDF-1.5\n')
     bm = b'\xbb\xad\xc0\xde'     # Document::new()'s default stays when line 2 is not a binary mark
     if mark:
@@ -133,7 +329,20 @@ def layout(rng, phys, xref, root, mark=True, compressed=None):
         p.offset = len(out)
         k = p.kind
         oid = OID(p.num, p.gen)
-        if k[0] == 'obj':
+        if enc and k[0] in ('stm', 'objstm'):
+            emit_encrypted_stream(rng, out, p, enc)
+        elif k[0] == 'encdict':
+            # the encryption dictionary: never encrypted, skipped by decrypt, removed afterwards
+            o = ('d', enc.h.dict_entries())
+            out += b'%d %d obj\n' % (p.num, p.gen) + pdf(o) + b'\nendobj\n'
+            p.parsed = L('obj', oid, sx(o))
+        elif k[0] == 'obj' and enc:
+            eo, po = enc.obj(p, k[1])
+            out += b'%d %d obj\n' % (p.num, p.gen) + pdf(eo) + b'\nendobj\n'
+            p.parsed = L('obj', oid, sx(eo))
+            if eo != po:
+                enc.dec.append(L(oid, sx(eo), sx(po)))
+        elif k[0] == 'obj':
             out += b'%d %d obj\n' % (p.num, p.gen) + pdf(k[1]) + b'\nendobj\n'
             p.parsed = L('obj', oid, sx(k[1]))
         elif k[0] == 'garbage':
@@ -192,25 +401,80 @@ def layout(rng, phys, xref, root, mark=True, compressed=None):
         rows.append((1, off, 0))
         entries.append(L(str(key), str(off), 'fail' if t == 'raw' else t.parsed))
     size = maxkey + 1
+    def with_encrypt(trailer):
+        if enc:
+            e = ('ref', enc.dict_num, 0) if enc.dict_num is not None else ('d', enc.h.dict_entries())
+            trailer.insert(rng.randint(0, len(trailer)), (b'Encrypt', e))
+            trailer.insert(rng.randint(0, len(trailer)), (b'ID', ('a', [('h', enc.id0), ('h', enc.id0[::-1])])))
+        return trailer
     if compressed is None:
         out += b'xref\n0 %d\n' % size
         for ty, a, b in rows:
             out += b'%010d %05d %s \n' % (a, b, b'n' if ty == 1 else b'f')
-        trailer = [(b'Size', ('i', size)), (b'Root', ('ref', root, 0))]
+        trailer = with_encrypt([(b'Size', ('i', size)), (b'Root', ('ref', root, 0))])
         out += b'trailer\n' + pdf(('d', trailer)) + b'\nstartxref\n%d\n%%%%EOF' % xref_at
     else:
         # cross-reference stream, not listed in itself; Length and W come last so that removing them keeps the order
         body = b''.join(bytes([ty]) + a.to_bytes(4, 'big') + b.to_bytes(2, 'big') for ty, a, b in rows)
-        trailer = [(b'Type', ('n', b'XRef')), (b'Size', ('i', size)), (b'Root', ('ref', root, 0))]
+        trailer = with_encrypt([(b'Type', ('n', b'XRef')), (b'Size', ('i', size)), (b'Root', ('ref', root, 0))])
         full = trailer + [(b'W', ('a', [('i', 1), ('i', 4), ('i', 2)])), (b'Length', ('i', len(body)))]
         out += b'%d 0 obj\n' % (size + 5) + pdf(('d', full)) + b'\nstream\n' + body + b'\nendstream\nendobj\n'
         out += b'startxref\n%d\n%%%%EOF' % xref_at
-    meta = [xb(b'1.5'), xb(bm), sx(('d', trailer)), str(maxkey), '0']
+    meta = [xb(b'1.5'), xb(bm), sx(('d', trailer)), str(maxkey), '1' if enc else '0']
     if compressed:
         # a number with a Normal entry has no Compressed entry (one entry per number in the table)
         meta.append(L('xc', *[L(str(n), str(c)) for n, c in sorted(compressed.items()) if n not in xref]))
-    case = L('case', xb(bytes(out)), L('meta', *meta), L('entries', *entries))
+    parts = [xb(bytes(out)), L('meta', *meta), L('entries', *entries)]
+    if enc:
+        parts.append(L('crypt', '1' if enc.opens else '0', L('dec', *enc.dec), L('osm', *enc.osm)))
+    case = L('case', *parts)
     return bytes(out), case
+
+
+def emit_encrypted_stream(rng, out, p, enc):
+    """a stream or object stream of an encrypted file: the dictionary's strings and the body are encrypted with the key of the
+    object's header id; the expected parse carries the ciphertext, enc.dec what decrypt_object makes of it (set_content
+    rewrites Length in place), enc.osm what ObjectStream::new finds in the plaintext"""
+    k = p.kind
+    oid = OID(p.num, p.gen)
+    if k[0] == 'objstm':
+        data, first = objstm_data(k[1])
+        entries = [(b'Type', ('n', b'ObjStm')), (b'N', ('i', len(k[1])))]
+        if not k[2]:
+            entries.append((b'First', ('i', first)))
+            members = L('m', *[L(OID(num, 0), sx(o)) for num, o in k[1] if o is not None])
+        else:
+            members = 'none'
+        enc.osm.append(L(xb(data), members))
+        length = ('direct', None)
+    else:
+        entries, data, length = list(k[1]), k[2], k[3]
+    ct = enc.data(p, data)
+    damaged = p in enc.damaged and enc.kind == 'aes'
+    if damaged:
+        ct = ct[:len(ct) - rng.randint(1, 15)]
+    ed, pd = enc.obj(p, ('d', entries))
+    eentries, pentries = list(ed[1]), list(pd[1])
+    if length[0] == 'direct':
+        lobj = ('i', len(ct))
+    else:
+        lobj = ('ref', length[1], 0)
+    pos = rng.randint(0, len(entries))
+    eentries.insert(pos, (b'Length', lobj))
+    out += b'%d %d obj\n' % (p.num, p.gen) + pdf(('d', eentries)) + b'\nstream\n'
+    start = len(out)
+    out += ct + b'\nendstream\nendobj\n'
+    if length[0] == 'direct' or length[2]:
+        # the parser knows the length (a reference to an integer object under a Normal entry is followed while parsing)
+        eentries[pos] = (b'Length', ('i', len(ct)))
+        seen, plain = ct, data
+        p.parsed = L('stm', oid, sx(('d', eentries)), xb(ct), 'none', 'none')
+    else:
+        # the length lives inside an (encrypted, hence unexpanded) object stream or nowhere: the body is never read
+        seen, plain = b'', b''
+        p.parsed = L('stm', oid, sx(('d', eentries)), xb(b''), str(start), 'none')
+    pentries.insert(pos, (b'Length', ('i', len(plain))))
+    enc.dec.append(L(oid, L('st', sx(('d', eentries)), xb(seen)), 'err' if damaged else L('st', sx(('d', pentries)), xb(plain))))
 
 
 # ------------------------------------------------------------------------------------------
@@ -420,6 +684,145 @@ def gen_same_header(rng, big=0, variant=None):
     return layout(rng, phys, xref, 1, mark=True, compressed=compressed)
 
 
+def enc_len(kind, n):
+    """length of the ciphertext of n bytes"""
+    return n if kind == 'rc4' else 16 + 16 * (n // 16 + 1)
+
+
+def gen_encrypted(rng, kind, big=0, variant=None):
+    """an ENCRYPTED file (RC4 128 bit or AESV2) that the empty user password opens -- Document::load_mem decrypts it and only then
+    expands the object streams -- with 2..5 object streams that share object numbers with different bodies.
+    variant 0: object streams numbered like their entries; 1: two object streams with ONE object number and different
+    generations (equal block keys); 2: header numbers differ from the entry numbers and sort the other way round;
+    3: the user password is not empty (nothing is decrypted, nothing expanded); 4: AES ciphertext of one stream cut (load fails);
+    5: the encryption dictionary is a direct object of the trailer.  big > 0: one object stream (mostly the first in the order
+    of the objects map) has `big` members more, so that on a real pool it would be finished last."""
+    v = rng.randrange(6) if variant is None else variant
+    nos = rng.randint(2, 5)
+    nplain = rng.randint(1, 3)
+    nstm = rng.randint(0, 3)
+    total = 1 + nplain + nstm + nos + 1
+    keys = list(range(2, total + 1))
+    rng.shuffle(keys)
+    plain_keys, stm_keys, os_keys, enc_key = keys[:nplain], keys[nplain:nplain + nstm], sorted(keys[nplain + nstm:-1]), keys[-1]
+    shared = list(range(total + 1, total + 1 + rng.randint(1, 3)))     # numbers that several object streams hold
+    direct = v == 5
+    cat = Phys(1, ('obj', ('d', [(b'Type', ('n', b'Catalog')), (b'Lang', ('s', b'en-US'))])))
+    phys = [cat]
+    xref = {1: cat}
+    collide = {}
+    int_holder = None
+    for k in stm_keys:
+        data = rng.choice([b'stream data 1', b'BT /F1 12 Tf (text) Tj ET', b'x', b'0123456789abcdef', b'0123456789' * 5])
+        extra = [(b'Kind', ('n', b'Content'))] if rng.random() < 0.5 else []
+        if rng.random() < 0.4:
+            extra.append((b'Title', ('s', rng.choice([b'a title', b'', b'sixteen byte str.']))))
+        r = rng.random()
+        if r < 0.45:
+            length = ('direct', None)
+        elif r < 0.55:
+            data, length = b'', ('direct', None)
+        elif r < 0.7 and int_holder is None:
+            int_holder = (plain_keys[0], enc_len(kind, len(data)))
+            length = ('ref', plain_keys[0], True)
+        elif r < 0.92:
+            length = ('ref', rng.choice(shared), False)       # defined only inside the object streams: never resolved
+        else:
+            length = ('ref', total + 40, False)                # dangling
+        p = Phys(k, ('stm', extra, data, length))
+        phys.append(p)
+        xref[k] = p
+    for k in plain_keys:
+        if int_holder and int_holder[0] == k:
+            p = Phys(k, ('obj', ('i', int_holder[1])))
+        else:
+            o = rng.choice([('s', b'a string'), ('d', [(b'Name', ('s', b'plain %d' % k)), (b'Next', ('ref', rng.choice(shared), 0))]),
+                            ('a', [('h', b'\x00\xff\x10'), ('i', k), ('s', b'')]), rand_obj(rng)])
+            gen = 0
+            if rng.random() < 0.35:
+                gen = rng.choice([0, 2, 65535])        # a number that object streams also hold, present under this generation
+                collide[k] = gen
+            p = Phys(k, ('obj', o), gen)
+        phys.append(p)
+        xref[k] = p
+    # the object streams: (entry key, header number, header generation)
+    specs = [(k, k, 0) for k in os_keys]
+    if v == 1:
+        specs[1] = (os_keys[1], os_keys[0], rng.choice([1, 7]))
+        if nos >= 4 and rng.random() < 0.5:
+            specs[3] = (os_keys[3], os_keys[2], 3)
+    elif v == 2:
+        hs = [total + 10 + j for j in range(nos)]
+        hs.reverse()
+        if rng.random() < 0.5:
+            rng.shuffle(hs)
+        specs = [(k, h, 0) for k, h in zip(os_keys, hs)]
+    order = sorted(range(nos), key=lambda j: (specs[j][1], specs[j][2]))       # the order of the objects map
+    sizes = [0] * nos
+    if big:
+        sizes[order[0] if rng.random() < 0.8 else order[-1]] = big
+    holders = {}
+    containers = []
+    for j, (key, h, g) in enumerate(specs):
+        tag = b'container %d %d' % (h, g)
+        ms = []
+        for num in shared:
+            if rng.random() < 0.85:
+                ms.append((num, rng.choice([('d', [(b'From', ('i', h)), (b'Gen', ('i', g)), (b'Text', ('s', tag))]), ('s', tag),
+                                            ('i', 100 * h + g), ('a', [('i', h), ('n', b'V%d' % j)])])))
+        for num in collide:
+            if rng.random() < 0.5:
+                ms.append((num, ('s', b'superseded, ' + tag)))
+        if rng.random() < 0.15 and not direct:
+            ms.append((enc_key, ('n', b'NotTheEncryptionDictionary')))
+        if rng.random() < 0.1:
+            ms.append((rng.choice(os_keys), ('n', b'MemberNumberedLikeAContainer')))
+        ms += [(100 * h + i, rand_obj(rng)) for i in range(rng.randint(0, 3))]
+        if ms and rng.random() < 0.1:
+            ms.append((ms[0][0], ('n', b'SecondEntryOfTheSameStream')))
+        if rng.random() < 0.05 and not sizes[j]:
+            ms.append((total + 60, None))                      # offset out of bounds
+        if not sizes[j]:
+            rng.shuffle(ms)
+        ms += [(1000 * (j + 1) + i, ('i', i)) for i in range(sizes[j])]
+        for num, _ in ms:
+            holders.setdefault(num, []).append((key, h))
+        p = Phys(h, ('objstm', ms, rng.random() < 0.04 and not sizes[j]), g)
+        containers.append(p)
+        phys.append(p)
+        xref[key] = p
+    if not direct:
+        e = Phys(enc_key, ('encdict',))
+        phys.append(e)
+        xref[enc_key] = e
+    if not big or rng.random() < 0.5:
+        rng.shuffle(phys)
+    compressed = None
+    if rng.random() < 0.6:
+        # a cross-reference stream placing the shared numbers: in an object stream that holds them (named by its header number --
+        # what the expansion after decryption compares with -- or by its entry number), in one that does not, in no object stream
+        compressed = {}
+        for num in shared + [total + 50]:
+            r = rng.random()
+            hs = holders.get(num)
+            if r < 0.6 and hs:
+                compressed[num] = rng.choice(hs)[1]
+            elif r < 0.7 and hs:
+                compressed[num] = rng.choice(hs)[0]
+            elif r < 0.8:
+                compressed[num] = rng.choice(specs)[1]
+            elif r < 0.85:
+                compressed[num] = total + 20
+        if not compressed:
+            compressed = {total + 50: specs[0][1]}
+    damaged = ()
+    if v == 4:
+        cands = [p for p in phys if p.kind[0] == 'objstm' or (p.kind[0] == 'stm' and p.kind[3][0] == 'direct')]
+        damaged = (rng.choice(cands),)
+    enc = Enc(rng, kind, opens=(v != 3), dict_num=None if direct else enc_key, damaged=damaged)
+    return layout(rng, phys, xref, 1, mark=rng.random() < 0.8, compressed=compressed, enc=enc)
+
+
 def gen_cases(rng, tier):
     quick = tier == 'quick'
     cases = []
@@ -443,6 +846,15 @@ def gen_cases(rng, tier):
     for k in range(3 if quick else 30):
         _, case = gen_same_header(rng, rng.choice([1000, 1500]), k % 2)
         cases.append((case, {'kind': 'same-header-big', 'nontrivial': True}))
+    # encrypted files: the object streams are expanded after decryption (drawn last: the cases above stay what they were)
+    for kind in ('rc4', 'aes'):
+        for v in range(6):
+            for _ in range(2 if quick else 30):
+                _, case = gen_encrypted(rng, kind, 0, v)
+                cases.append((case, {'kind': 'encrypted-%s-%d' % (kind, v), 'nontrivial': True}))
+        for k in range(3 if quick else 24):
+            _, case = gen_encrypted(rng, kind, rng.choice([1000, 1500]), (0, 1, 2)[k % 3])
+            cases.append((case, {'kind': 'encrypted-%s-big' % kind, 'nontrivial': True}))
     return cases
 
 
